@@ -153,6 +153,19 @@ def replay(module: str, func: str, args: dict) -> dict:
 		out['raised'] = f'{type(e).__name__}: {e}'[:500]
 		out['traceback'] = traceback.format_exc()[-1500:]
 		out['reproduced'] = True
+	confirm = getattr(mod, 'CONFIRM', {})
+	if func in confirm and out['reproduced']:
+		# end-to-end demonstration (e.g. through the whole pipeline): a failing step law only counts when it shows there as well
+		try:
+			shown, text = confirm[func](**args)
+			out['confirm'] = str(text)[:1500]
+			if not shown:
+				out['reproduced'] = False
+				out['unconfirmed'] = True
+		except Exception as e:  # noqa: BLE001
+			out['confirm'] = f'(end-to-end demonstration failed to run: {type(e).__name__}: {e})'
+			out['reproduced'] = False
+			out['unconfirmed'] = True
 	classifiers = getattr(mod, 'CLASSIFIERS', {})
 	if func in classifiers:
 		try:
